@@ -60,7 +60,7 @@ func c12Decision(c *Ctx, p *Prog, m *Model) {
 	lvlIdx := m.levelParamIndex(term)
 	var msgParam *ssa.Parameter
 	for _, prm := range term.Params {
-		if prm.Name() == "msg" {
+		if nm(prm) == "msg" {
 			msgParam = prm
 		}
 	}
@@ -135,7 +135,7 @@ func c12Decision(c *Ctx, p *Prog, m *Model) {
 			// flags & F != 0 inline form
 			if x.Op == token.NEQ || x.Op == token.EQL {
 				if and, ok := strip(x.X).(*ssa.BinOp); ok && and.Op == token.AND {
-					if g, ok := globalLoad(and.X); ok && g.Name() == "flags" {
+					if g, ok := globalLoad(and.X); ok && nm(g) == "flags" {
 						if x.Op == token.NEQ {
 							if z, ok := constInt(x.Y); ok && z == 0 {
 								return "any:" + flagName(and.Y)
@@ -149,7 +149,7 @@ func c12Decision(c *Ctx, p *Prog, m *Model) {
 			}
 		case *ssa.Call:
 			if cal := calleeOf(x); cal != nil && len(x.Common().Args) == 1 {
-				switch cal.Name() {
+				switch nm(cal) {
 				case "IsAnyBitsSet":
 					return "any:" + flagName(x.Common().Args[0])
 				case "IsAllBitsSet":
@@ -158,7 +158,7 @@ func c12Decision(c *Ctx, p *Prog, m *Model) {
 			}
 		case *ssa.UnOp:
 			if g, ok := globalLoad(x); ok {
-				return "global:" + g.Name()
+				return "global:" + nm(g)
 			}
 		}
 		return "other:" + m.condDesc(cond)
@@ -178,7 +178,7 @@ func c12Decision(c *Ctx, p *Prog, m *Model) {
 				if b, ok := cal.Signature.Results().At(0).Type().Underlying().(interface{ Kind() int }); ok {
 					_ = b
 				}
-				if cal.Signature.Results().At(0).Type().String() == "bool" && cal.Name() != "IsAnyBitsSet" && cal.Name() != "IsAllBitsSet" {
+				if cal.Signature.Results().At(0).Type().String() == "bool" && nm(cal) != "IsAnyBitsSet" && nm(cal) != "IsAllBitsSet" {
 					collect(cal, depth+1)
 				}
 			}
@@ -484,7 +484,7 @@ func c12Mapping(c *Ctx, p *Prog, m *Model) {
 	// no run-time store into that table
 	for _, fn := range p.RepoFuncs() {
 		for _, gs := range globalStores(fn) {
-			if gs.G.Name() == "mLogSlogLevelToLevel" && fn.Name() != "init" {
+			if nm(gs.G) == "mLogSlogLevelToLevel" && nm(fn) != "init" {
 				r.Bad("R12.5", "table-store:"+shortName(fn), p.Pos(instrPos(gs.Instr)), "the log/slog level table is modified at run time")
 			}
 		}
@@ -494,7 +494,7 @@ func c12Mapping(c *Ctx, p *Prog, m *Model) {
 // onlyCalledFromSpineTail: fn is a private helper whose only callers are functions of the emission spine that carry the
 // record's severity (so that R12.1 inlines and decides it).
 func onlyCalledFromSpineTail(m *Model, fn *ssa.Function) bool {
-	if token.IsExported(fn.Name()) || len(m.Callers[fn]) == 0 {
+	if token.IsExported(nm(fn)) || len(m.Callers[fn]) == 0 {
 		return false
 	}
 	for _, cs := range m.Callers[fn] {
